@@ -88,7 +88,7 @@ def generate(seed, tier):
     elif k == 'read':
       ops.append(['read', v, o.randint(0, 10**6)])
     elif k == 'open':
-      ops.append(['open', v, o.choice(['client_ids', 'client_sizes', 'clients', 'clients', 'shuffled']),
+      ops.append(['open', v, o.choice(['client_ids', 'client_sizes', 'clients', 'clients', 'shuffled', 'get_clients', 'get_clients']),
                   o.randint(0, 3), o.randint(1, 12), o.randint(0, 10**6)])
     elif k == 'step':
       ops.append(['step', o.randint(0, 5), o.randint(1, 3)])
@@ -378,7 +378,14 @@ def execute(sc):
       got = t['out']
       lab = f'iterator {kind} on view#{nodes.index(node)} [{t["name"]}] (interleaved with {t["others"]} other cursors)'
       k = _kind(t['name'])
-      if kind in ('client_ids', 'client_sizes', 'clients'):
+      if kind == 'get_clients':
+        keys = [g[0] for g in got]
+        if keys != t['req']:
+          violation('bulk-get', f'V:interleaved-get_clients-not-in-request-order:{k}', f'{lab}: requested {t["req"]}, got {keys}')
+        for cid, ds in got:
+          if cid in node.ids:
+            check_dataset(node, cid, ds, lambda c, w, m: violation(c, f'V:{w}:{k}', f'{lab}: {m}'), 'interleaved get_clients()')
+      elif kind in ('client_ids', 'client_sizes', 'clients'):
         keys = [g[0] if isinstance(g, tuple) else g for g in got]
         if sorted(keys) != ids:
           violation('iteration', f'V:interleaved-iterator-differs-from-model:{kind}:{k}', f'{lab}: got {keys}, model {ids}')
@@ -482,7 +489,14 @@ def execute(sc):
           continue
         t = {'node': parent, 'name': name, 'fd': fd, 'kind': k, 'out': [], 'state': 'open', 'others': len(live),
              'buf': op[4], 'seed': op[5], 'limit': 2 * max(1, len(parent.ids)) + 1}
-        t['it'] = fd.shuffled_clients(op[4], op[5]) if k == 'shuffled' else getattr(fd, k)()
+        if k == 'get_clients':
+          if not parent.ids:
+            continue
+          gq = Rng(op[5]).sub('req')
+          t['req'] = [gq.choice(sorted(parent.ids)) for _ in range(gq.randint(1, 2 * len(parent.ids)))]
+          t['it'] = fd.get_clients(list(t['req']))
+        else:
+          t['it'] = fd.shuffled_clients(op[4], op[5]) if k == 'shuffled' else getattr(fd, k)()
         tasks.append(t)
         if live:
           probes.inc('two_cursors_in_flight')
